@@ -256,6 +256,16 @@ func runLex(lines []string) {
 		}
 		if err != nil || t == mcap.TokenError {
 			fmt.Fprintln(out, "endtok", res(err))
+			// a consumer may call Next again after an error (the object is still usable by its type): whatever
+			// comes back must come back as a return value. Only done when a record size limit bounds what the
+			// lexer may allocate for the garbage it may now be looking at; the lines are informational (the
+			// model's run ends at the first error), a panic is not.
+			if lo != nil && lo.MaxRecordSize > 0 && lo.MaxDecompressedChunkSize > 0 {
+				for k := 0; k < 3; k++ {
+					t2, _, err2 := lexer.Next(buf)
+					fmt.Fprintf(out, "after %d %d %s\n", k, opName(t2), res(err2))
+				}
+			}
 			return
 		}
 		fmt.Fprintf(out, "tok %d %s\n", opName(t), hx(rec))
